@@ -94,11 +94,68 @@ func faultAtom(t *rapid.T) (ast.Expr, string) {
 	return at.e, at.class
 }
 
+// c08SafeArgs: arguments that fit the position, so that a fault atom put in
+// one position of a call is the only fault of the expression.
+var c08SafeArgs = map[string][]string{
+	"num": {"`1`", "`-2.5`"}, "arr-num": {"`[1,2]`", "`[]`"}, "arr|str": {"'abcabc'", "`[1,\"b\"]`"}, "sub": {"'b'", "'zz'"}, "str": {"'abcabc'", "''", "'c'"}, "int": {"`0`", "`1`", "`-1`"},
+	"arr-pairs": {"`[[\"a\",1]]`"}, "arr-rec": {"`[{\"k\":1},{\"k\":2}]`", "a"}, "obj": {"`{\"a\":1}`", "o"}, "arr-str": {"`[\"a\",\"b\"]`"}, "sized": {"'abc'", "`[1]`", "`{}`"},
+	"arr": {"`[1,2]`", "a"}, "arr-homog": {"`[2,1]`", "`[\"b\",\"a\"]`"}, "any": {"`1`", "'x'", "`null`", "b"}, "count": {"`0`", "`1`", "`2`", "`5`"}, "str1": {"'-'", "'é'"}, "numstr": {"'1'", "'x'"}, "padded": {"' abc '"},
+}
+
+// faultyArgument puts f at one argument position of a built-in called with
+// one of its legal argument counts; every other argument fits its position.
+func faultyArgument(t *rapid.T, f ast.Expr) (ast.Expr, string) {
+	name := gen.Pick(t, "argfn", model.FuncNames)
+	sig := model.Sigs[name]
+	kinds := gen.ParamKinds[name]
+	max := sig.Max
+	if max < 0 {
+		max = sig.Min + 2
+	}
+	argc := rapid.IntRange(sig.Min, max).Draw(t, "argfn-argc")
+	var positions []int
+	for i := 0; i < argc; i++ {
+		if !sig.IsRef(i) {
+			positions = append(positions, i)
+		}
+	}
+	if len(positions) == 0 {
+		return ast.Call("not_null", ast.A(f)), "argument"
+	}
+	at := gen.Pick(t, "argfn-pos", positions)
+	args := make([]ast.Arg, argc)
+	for i := range args {
+		kind := "any"
+		if i < len(kinds) {
+			kind = kinds[i]
+		}
+		switch {
+		case i == at:
+			args[i] = ast.A(f)
+		case sig.IsRef(i):
+			key := ast.Expr(ast.F("k"))
+			if name == "map" {
+				key = ast.Cur()
+			}
+			args[i] = ast.Ref(key)
+		default:
+			pr := ast.Parse(gen.Pick(t, "argfn-safe", c08SafeArgs[kind]))
+			if pr.Verdict != ast.In {
+				t.Fatalf("HARNESS-BUG: safe argument for %s does not parse", kind)
+			}
+			args[i] = ast.A(pr.Expr)
+		}
+	}
+	return ast.Call(name, args...), fmt.Sprintf("argument-%d-of-%d", at+1, argc)
+}
+
 // inContext places f where it is evaluated below the top level.
 func inContext(t *rapid.T, f ast.Expr) (ast.Expr, string) {
 	a := ast.F("a")
 	ml := func(es ...ast.Expr) *ast.Chain { return &ast.Chain{Head: ast.Head{Kind: ast.HMultiList, Items: es}} }
-	switch rapid.IntRange(0, 19).Draw(t, "context") {
+	switch rapid.IntRange(0, 22).Draw(t, "context") {
+	case 20, 21, 22:
+		return faultyArgument(t, f)
 	case 18, 19:
 		// a fault that depends on the data: the key expression (or mapped
 		// expression) succeeds for the first record and reaches the faulty
